@@ -264,6 +264,9 @@ func runC13(c *Ctx) {
 	if b.Proxy.Alive() && c.ViolationCount() == 0 {
 		c13Aborted(c, b, listeners)
 	}
+	if b.Proxy.Alive() && c.ViolationCount() == 0 {
+		c13SlowReader(c, b, listeners)
+	}
 	alive := b.Proxy.Alive()
 	res := b.Stop()
 	if !alive {
